@@ -52,7 +52,7 @@ ASSUMPTIONS = [
     "x0 for keep_feasible linear constraints)",
 ]
 BOUND = {'quick': '4 units x 60 problems, each solved under two scalings',
-         'thorough': '32 units x 1200 problems, each solved under two scalings'}
+         'thorough': '32 units x 600 problems, each solved under two scalings'}
 MIN_CLASS_FRACTION = {'success': 0.15, 'mixed_pattern': 0.2, 'active': 0.4, 'success_outside_known_predicates': 0.1}
 UNIT_TIMEOUT = {'quick': 3000, 'thorough': 6 * 3600}
 
@@ -981,7 +981,7 @@ def strategy(tier, opts):
 def units(tier, seed):
     # few, long units: importing OpenMDAO + scipy + Hypothesis dominates the cost of a short unit
     nunits = 4 if tier == 'quick' else 32
-    per = 60 if tier == 'quick' else 1200
+    per = 60 if tier == 'quick' else 600
     return [{'kind': 'random', 'n': per, 'seed': core.shard_seed(seed, ID, i)} for i in range(nunits)]
 
 
